@@ -505,6 +505,9 @@ func (c *Ctx) enterBlock(st *State, b *ssa.BasicBlock) bool {
 }
 
 func (c *Ctx) loopSpec(fr *Frame, l *Loop) *LoopSpec {
+	if c.InlineAll {
+		return nil // evaluation rule: loops are executed, never cut, whatever contracts the functions carry
+	}
 	sp := fr.Spec
 	if sp == nil {
 		sp = c.Eng.SpecFor(fr.Fn)
